@@ -17,13 +17,14 @@ def main():
   ap.add_argument('-v', action='store_true')
   ap.add_argument('--repo')
   ap.add_argument('--dump')
+  ap.add_argument('--only')
   a = ap.parse_args()
   t0 = time.time()
   reg = run.load_contracts()
   repo = extract.Repo(a.repo)
   quals = [q for q, c in reg.items()
            if (not a.prop or a.prop in c.props) and (not a.fn or a.fn in q)]
-  fres, index, results, wall = run.check_functions(repo, quals)
+  fres, index, results, wall = run.check_functions(repo, quals, only=a.only)
   bad = 0
   for q in quals:
     r = fres.get(q)
